@@ -1,37 +1,68 @@
 ---------------------------- MODULE MC_OutputWr ----------------------------
-(* C16 part 3, design level: which INPUT CLASS of constructor values makes a   *)
+(* C16 part 3, design level: which INPUT CLASSES of constructor values make a  *)
 (* write -> rebuild comparison expose every unfaithful write().                *)
 (*                                                                             *)
 (* A component has constructor keywords Keys with values vals (Default = the   *)
 (* constructor default).  Its write() is a map w: dataset name k |-> the       *)
-(* attribute whose value is stored under k, or "none" (nothing stored).  The   *)
-(* faithful writer is the identity.  The loader hands file[k] to keyword k and *)
-(* leaves every keyword that is not in the file at its default.                *)
-(*   InputClass = "distinct": every keyword non-default and pairwise distinct  *)
-(*   InputClass = "single":   exactly one keyword non-default                  *)
+(* attribute whose value is stored under k, or "none" (nothing stored), and a  *)
+(* GUARD g that decides per value whether the dataset is written at all:       *)
+(*   "always"  every value is written                                          *)
+(*   "truthy"  `if value:` -- values that Python's truth test takes for false  *)
+(*             (0, 0.0, False, an empty list) are skipped like an unset one    *)
+(* The faithful writer is the identity with the guard "always" (skipping the   *)
+(* Default itself is harmless: Default is in Falsy).  The loader hands file[k] *)
+(* to keyword k and leaves every keyword that is not in the file at its        *)
+(* default.                                                                    *)
+(* Values: 0 = Default, 1 = Zero (legal, not the default, false for the truth  *)
+(* test), 2.. = ordinary values.                                               *)
+(*   InputClass = "distinct": every keyword an ordinary value, pairwise distinct *)
+(*   InputClass = "single":   exactly one keyword non-default, an ordinary value *)
+(*   InputClass = "falsy":    exactly one keyword is Zero, the others ordinary *)
+(*                            and pairwise distinct                            *)
 (*   InputClass = "any":      all assignments (defaults, equal values allowed) *)
-(* Exposes: an unfaithful writer (for "single": unfaithful on the one keyword  *)
-(* that is set) always shows as a changed constructor value.  TLC proves it    *)
-(* for "distinct" and "single" and refutes it for "any" (a swapped pair with   *)
-(* equal or default values comes back unchanged).                              *)
+(* Exposes: within a class, the unfaithfulness that class is meant for always  *)
+(* shows as a changed constructor value.  TLC proves it for "distinct",        *)
+(* "single", "falsy" and refutes it for "any" (a swapped pair with equal or    *)
+(* default values comes back unchanged).                                       *)
+(* SweepExposes: EVERY unfaithful writer (map or guard) is exposed by at least *)
+(* one input of the classes in use.  TLC proves it for {"distinct", "single",  *)
+(* "falsy"} and refutes it for {"distinct", "single"} -- the counterexample is *)
+(* the identity map with the guard "truthy": a sweep that never hands a legal  *)
+(* zero to a keyword cannot see it.                                            *)
 EXTENDS Integers, FiniteSets, TLC
 CONSTANTS Keys, NVals, InputClasses
 Default == 0
+Zero == 1
+Falsy == {Default, Zero}
 Vals == 0..NVals
-VARIABLES w, vals, InputClass
+Guards == {"always", "truthy"}
+VARIABLES w, g, vals, InputClass
 Id == [k \in Keys |-> k]
-Rebuild(wr, v) == [k \in Keys |-> IF wr[k] = "none" THEN Default ELSE v[wr[k]]]
+Stored(gd, v) == gd = "always" \/ v \notin Falsy
+Rebuild(wr, gd, v) == [k \in Keys |-> IF wr[k] = "none" \/ ~Stored(gd, v[wr[k]]) THEN Default ELSE v[wr[k]]]
 NonDefault(v) == {k \in Keys : v[k] # Default}
-InClass(v) == CASE InputClass = "distinct" -> /\ NonDefault(v) = Keys
-                                              /\ \A j, k \in Keys : j # k => v[j] # v[k]
-                [] InputClass = "single"   -> Cardinality(NonDefault(v)) = 1
-                [] OTHER -> TRUE
-Unfaithful(wr, v) == IF InputClass = "single" THEN \E k \in NonDefault(v) : wr[k] # k ELSE wr # Id
+Ordinary(v, K) == /\ \A k \in K : v[k] \notin Falsy
+                  /\ \A j, k \in K : j # k => v[j] # v[k]
+ZeroKeys(v) == {k \in Keys : v[k] = Zero}
+InClassOf(c, v) == CASE c = "distinct" -> Ordinary(v, Keys)
+                     [] c = "single"   -> Cardinality(NonDefault(v)) = 1 /\ Ordinary(v, NonDefault(v))
+                     [] c = "falsy"    -> Cardinality(ZeroKeys(v)) = 1 /\ Ordinary(v, Keys \ ZeroKeys(v))
+                     [] OTHER -> TRUE
+InClass(v) == InClassOf(InputClass, v)
+\* the unfaithfulness a class is meant to expose
+Unfaithful(wr, gd, v) == CASE InputClass = "single" -> \E k \in NonDefault(v) : wr[k] # k
+                           [] InputClass = "falsy"  -> gd = "truthy" \/ \E k \in ZeroKeys(v) : wr[k] # k
+                           [] OTHER -> wr # Id
 Init == /\ w \in [Keys -> Keys \cup {"none"}]
+        /\ g \in Guards
         /\ vals \in [Keys -> Vals]
         /\ InputClass \in InputClasses
-Next == UNCHANGED <<w, vals, InputClass>>
-Spec == Init /\ [][Next]_<<w, vals, InputClass>>
-Exposes == (InClass(vals) /\ Unfaithful(w, vals)) => Rebuild(w, vals) # vals
-Faithful == Rebuild(Id, vals) = vals
+Next == UNCHANGED <<w, g, vals, InputClass>>
+Spec == Init /\ [][Next]_<<w, g, vals, InputClass>>
+Exposes == (InClass(vals) /\ Unfaithful(w, g, vals)) => Rebuild(w, g, vals) # vals
+Faithful == Rebuild(Id, "always", vals) = vals
+\* every unfaithful writer is exposed by some input of the classes the sweep uses
+\* (a statement about the writer alone: evaluated in one state per writer)
+SweepExposes == (vals = [k \in Keys |-> Default] /\ InputClass = (CHOOSE c \in InputClasses : TRUE) /\ (w # Id \/ g = "truthy")) =>
+                    \E c \in InputClasses : \E v \in [Keys -> Vals] : InClassOf(c, v) /\ Rebuild(w, g, v) # v
 =============================================================================
